@@ -51,7 +51,11 @@ SvgShapes  == { Shape("svgStyleText", FALSE, <<>>, <<>>), Shape("svgStyleCdata",
                 Shape("svgStyleText", TRUE, bTextCss, <<>>) }
 CssShapes  == { Shape("cssDataUri", FALSE, <<>>, bSvg), Shape("cssDataUri", FALSE, <<>>, bTextCss), Shape("cssDataUri", FALSE, <<>>, <<>>),
                 Shape("cssDataUri", FALSE, <<>>, bSvgCharset) }
-ShapesOf(h) == CASE h = "html" -> HtmlShapes \cup UnconsumedShapes [] h = "svg" -> SvgShapes [] h = "css" -> CssShapes
+\* host kind "csswarm": a style sheet minified on a registry on which an HTML document with an inline <svg> element was
+\* minified before (two documents, one registry: what an earlier call derived from ITS params - inline=1 for the svg
+\* minifier - must not reach the svg minifier of a later data: URI).  Within one document the same order is the slot
+\* sequence  svg element, then data URI  of the html shapes.
+ShapesOf(h) == CASE h = "html" -> HtmlShapes \cup UnconsumedShapes [] h = "svg" -> SvgShapes [] h = "css" -> CssShapes [] h = "csswarm" -> CssShapes
 
 EInit == /\ RInit /\ hostKind = "none" /\ host = <<>> /\ phase = "config" /\ pc = 1 /\ sub = 0
          /\ rawTag = "none" /\ rawType = <<>> /\ enters = <<>> /\ outp = <<>> /\ status = "running"
@@ -129,7 +133,7 @@ Run ==
   /\ UNCHANGED <<lit, pats, hist, hostKind, host, phase>>
 
 ENext == \/ \E t \in DOMAIN Menu, beh \in {0, 1} : ERegister(t, beh)
-         \/ \E h \in {"html", "svg", "css"} : ChooseHost(h)
+         \/ \E h \in {"html", "svg", "css", "csswarm"} : ChooseHost(h)
          \/ \E s \in HtmlShapes \cup UnconsumedShapes \cup SvgShapes \cup CssShapes : AddSlot(s)
          \/ Start \/ Run
 ESpec == EInit /\ [][ENext]_evars
